@@ -257,9 +257,9 @@ Section Proofs.
   Qed.
 
   Theorem capi_cb_failure s c s' ph :
-    step s c = (s', Ret Success) -> io_of c = IoFail ph -> ph <> PhFinish -> no_io_call c = true.
+    step s c = (s', Ret Success) -> io_of c = IoFail ph -> no_io_call c = true.
   Proof.
-    destruct c; cbn [capi_step io_of no_io_call]; intros HS HI HP; try reflexivity; subst.
+    destruct c; cbn [capi_step io_of no_io_call]; intros HS HI; try reflexivity; subst.
     - (* archive_new *) revert HS. break; intro HS; inversion HS. destruct ph; discriminate.
     - (* file_new *) revert HS. break; intro HS; try (inversion HS; fail).
       apply wcall_fail_not_success in HS. discriminate HS.
@@ -272,17 +272,8 @@ Section Proofs.
       destruct (c_ar s i) as [ar|]; [|intro HS; inversion HS].
       destruct (wstep (a_w ar) OFinalize) as [w' [v|e|cc]]; try (intro HS; inversion HS; fail).
       + destruct (a_poison ar); [intro HS; inversion HS|].
-        destruct ph; intro HS; inversion HS. exfalso; apply HP; reflexivity.
+        destruct ph; intro HS; inversion HS.
       + intro HS; inversion HS. destruct e; discriminate.
-  Qed.
-
-  (* REFUTED PART (finding): a callback failure while CompressionLayerWriter::finalize lets
-     brotli finish the stream is dropped: mla_archive_close returns Success *)
-  Theorem capi_cb_failure_refuted_finish :
-    exists s c s', step s c = (s', Ret Success) /\ io_of c = IoFail PhFinish /\ no_io_call c = false.
-  Proof.
-    exists (set_ar c_init 0 (Some (mkA w_init false []))), (CArchiveClose (RSlot 0) (IoFail PhFinish)).
-    eexists. split; [reflexivity|split; reflexivity].
   Qed.
 
   (* ---- refinement: successful C calls drive the writer through the same wop sequence ---- *)
